@@ -440,6 +440,7 @@ def battery_receiver_history(seed):
     for n1, c1, _ in prods:
         for n2, c2, w2 in prods:
             cases.append('{"%s then %s", func(v *Point) { %s; %s }, "%s", "%s"},' % (n1, n2, c1, c2, ref.ed_encode(w2).hex(), mont(w2)))
+            cases.append('{"%s, read, then %s", func(v *Point) { %s; _ = v.Bytes(); _ = v.BytesMontgomery(); _, _, _, _ = v.ExtendedCoordinates(); %s }, "%s", "%s"},' % (n1, n2, c1, c2, ref.ed_encode(w2).hex(), mont(w2)))
     code = '''package edwards25519
 import ("testing"; "encoding/hex"; "filippo.io/edwards25519/field")
 func hx(s string) []byte { b, _ := hex.DecodeString(s); return b }
@@ -501,6 +502,7 @@ def battery_value_history(seed, which="scalar"):
             ("Subtract", 'v.Subtract(sc("%s"), sc("%s"))' % (h(a), h(b)), (a - b) % L),
         ]
         cases = ['{"%s then %s", func(v *Scalar) { %s; %s }, "%s"},' % (n1, n2, c1, c2, h(w2)) for n1, c1, _ in prods for n2, c2, w2 in prods]
+        cases += ['{"%s, read, then %s", func(v *Scalar) { %s; _ = v.Bytes(); _ = v.Equal(v); %s }, "%s"},' % (n1, n2, c1, c2, h(w2)) for n1, c1, _ in prods for n2, c2, w2 in prods]
         code = '''package edwards25519
 import ("testing"; "encoding/hex")
 func hx(s string) []byte { b, _ := hex.DecodeString(s); return b }
@@ -542,6 +544,7 @@ func TestVerif(t *testing.T) {
             ("Set", 'v.Set(el("%s"))' % h(b), b),
         ]
         cases = ['{"%s then %s", func(v *Element) { %s; %s }, "%s", %d},' % (n1, n2, c1, c2, h(w2), w2 & 1) for n1, c1, _ in prods for n2, c2, w2 in prods]
+        cases += ['{"%s, read, then %s", func(v *Element) { %s; _ = v.Bytes(); _ = v.IsNegative(); %s }, "%s", %d},' % (n1, n2, c1, c2, h(w2), w2 & 1) for n1, c1, _ in prods for n2, c2, w2 in prods]
         code = '''package field
 import ("testing"; "encoding/hex")
 func hx(s string) []byte { b, _ := hex.DecodeString(s); return b }
